@@ -197,10 +197,12 @@ package bufmodule
 //@   property C10
 //@   ensures r != nil && r.Module == module && r.parent == parent && r.isDirect == isDirect
 //@   ensures fresh: !old(allocated(r))
+//@   ensures now-allocated: allocated(r)
 //
 //@ func getModuleDepsRec(ctx, module, visitedOpaqueIDToDescription, parentOpaqueIDs, orderedParentOpaqueIDs, depOpaqueIDToModuleDep, protoFileTracker, isDirect) (err)
 //@   property C10
 //@   modifies visitedOpaqueIDToDescription, parentOpaqueIDs, depOpaqueIDToModuleDep, heap moduleDep.Module, heap moduleDep.parent, heap moduleDep.isDirect, heap protoFileTracker.opaqueIDToProtoFileExists, heap protoFileTracker.protoPathToOpaqueIDMap, heap protoFileTracker.opaqueIDToDescription, heap ModuleCycleError.Descriptions, heap ImportNotExistError.fileInfo, heap ImportNotExistError.importPath, heap ptr.Ref
+//@   requires recs-allocated: forall k string, d ref :: k in depOpaqueIDToModuleDep && d == depOpaqueIDToModuleDep[k] ==> allocated(d)
 //@   requires maps: depOpaqueIDToModuleDep != nil && visitedOpaqueIDToDescription != nil && parentOpaqueIDs != nil
 //@   requires tracker: protoFileTracker != nil && protoFileTracker.opaqueIDToProtoFileExists != nil && protoFileTracker.protoPathToOpaqueIDMap != nil && protoFileTracker.opaqueIDToDescription != nil
 //@   ensures maps-stay: depOpaqueIDToModuleDep != nil && visitedOpaqueIDToDescription != nil && parentOpaqueIDs != nil
@@ -209,27 +211,38 @@ package bufmodule
 //@   canary ensures err != nil
 //@   canary ensures err == nil
 //@   canary ensures forall k string :: k in depOpaqueIDToModuleDep ==> k in old(depOpaqueIDToModuleDep)
+//@   closure 0 ensures r == ite(parentOpaqueID in visitedOpaqueIDToDescription, visitedOpaqueIDToDescription[parentOpaqueID], "")
+//@   ensures cycle-is-error: module.OpaqueID() in old(parentOpaqueIDs) ==> err != nil && typeOf(err) == typeId(*ModuleCycleError)
+//@   ensures cycle-names-the-chain: module.OpaqueID() in old(parentOpaqueIDs) ==> len(cast(*ModuleCycleError, err).Descriptions) == len(orderedParentOpaqueIDs) + 1 && cast(*ModuleCycleError, err).Descriptions[len(orderedParentOpaqueIDs)] == module.Description() && (forall j int :: 0 <= j && j < len(orderedParentOpaqueIDs) ==> cast(*ModuleCycleError, err).Descriptions[j] == ite(orderedParentOpaqueIDs[j] in old(visitedOpaqueIDToDescription), old(visitedOpaqueIDToDescription)[orderedParentOpaqueIDs[j]], ""))
+//@   ensures recs-allocated-after: forall k string, d ref :: k in depOpaqueIDToModuleDep && d == depOpaqueIDToModuleDep[k] ==> allocated(d)
+//@   ensures parents-restored: err == nil ==> (forall k string :: (k in parentOpaqueIDs) <==> (k in old(parentOpaqueIDs)))
+//@   ensures recursive-records-not-direct: forall k string, d ref :: k in depOpaqueIDToModuleDep && !(k in old(depOpaqueIDToModuleDep)) && d == depOpaqueIDToModuleDep[k] ==> (cast(*moduleDep, d).isDirect ==> isDirect)
 // first hop: every dependency discovered directly from the imports of this module's files is recorded with the isDirect flag of this call and this module as parent
 //@   assert before "parentOpaqueIDs[opaqueID] = struct{}{}" first-hop-flag: forall j int, d ref :: 0 <= j && j < len(newModuleDeps) && d == newModuleDeps[j] ==> cast(*moduleDep, d).isDirect == isDirect && cast(*moduleDep, d).parent == module && cast(*moduleDep, d).Module.OpaqueID() != module.OpaqueID()
 //@   ensures new-deps-are-fresh-records: forall k string, d ref :: k in depOpaqueIDToModuleDep && !(k in old(depOpaqueIDToModuleDep)) && d == depOpaqueIDToModuleDep[k] ==> d != nil && !old(allocated(d))
 //@   ensures old-deps-frame: forall d ref :: old(allocated(d)) ==> cast(*moduleDep, d).isDirect == old(cast(*moduleDep, d).isDirect) && cast(*moduleDep, d).parent == old(cast(*moduleDep, d).parent) && cast(*moduleDep, d).Module == old(cast(*moduleDep, d).Module)
+//@   closure 1 invariant forall k string, d ref :: k in depOpaqueIDToModuleDep && d == depOpaqueIDToModuleDep[k] ==> allocated(d)
 //@   closure 1 invariant depOpaqueIDToModuleDep != nil
 //@   closure 1 invariant protoFileTracker.opaqueIDToProtoFileExists != nil && protoFileTracker.protoPathToOpaqueIDMap != nil && protoFileTracker.opaqueIDToDescription != nil
 //@   closure 1 invariant forall k string :: k in old(depOpaqueIDToModuleDep) ==> k in depOpaqueIDToModuleDep && depOpaqueIDToModuleDep[k] == old(depOpaqueIDToModuleDep)[k]
 //@   closure 1 invariant forall k string, d ref :: k in depOpaqueIDToModuleDep && !(k in old(depOpaqueIDToModuleDep)) && d == depOpaqueIDToModuleDep[k] ==> d != nil && !old(allocated(d)) && cast(*moduleDep, d).isDirect == isDirect && cast(*moduleDep, d).parent == module && cast(*moduleDep, d).Module.OpaqueID() == k && k != module.OpaqueID()
 //@   closure 1 invariant forall d ref :: old(allocated(d)) ==> cast(*moduleDep, d).isDirect == old(cast(*moduleDep, d).isDirect) && cast(*moduleDep, d).parent == old(cast(*moduleDep, d).parent) && cast(*moduleDep, d).Module == old(cast(*moduleDep, d).Module)
 //@   closure 1 invariant forall j int, d ref :: 0 <= j && j < len(newModuleDeps) && d == newModuleDeps[j] ==> d != nil && !old(allocated(d)) && cast(*moduleDep, d).isDirect == isDirect && cast(*moduleDep, d).parent == module && cast(*moduleDep, d).Module.OpaqueID() != module.OpaqueID()
+//@   loop 0 invariant forall k string, d ref :: k in depOpaqueIDToModuleDep && d == depOpaqueIDToModuleDep[k] ==> allocated(d)
 //@   loop 0 invariant depOpaqueIDToModuleDep != nil
 //@   loop 0 invariant protoFileTracker.opaqueIDToProtoFileExists != nil && protoFileTracker.protoPathToOpaqueIDMap != nil && protoFileTracker.opaqueIDToDescription != nil
 //@   loop 0 invariant forall k string :: k in old(depOpaqueIDToModuleDep) ==> k in depOpaqueIDToModuleDep && depOpaqueIDToModuleDep[k] == old(depOpaqueIDToModuleDep)[k]
 //@   loop 0 invariant forall k string, d ref :: k in depOpaqueIDToModuleDep && !(k in old(depOpaqueIDToModuleDep)) && d == depOpaqueIDToModuleDep[k] ==> d != nil && !old(allocated(d)) && cast(*moduleDep, d).isDirect == isDirect && cast(*moduleDep, d).parent == module && cast(*moduleDep, d).Module.OpaqueID() == k && k != module.OpaqueID()
 //@   loop 0 invariant forall d ref :: old(allocated(d)) ==> cast(*moduleDep, d).isDirect == old(cast(*moduleDep, d).isDirect) && cast(*moduleDep, d).parent == old(cast(*moduleDep, d).parent) && cast(*moduleDep, d).Module == old(cast(*moduleDep, d).Module)
 //@   loop 0 invariant forall j int, d ref :: 0 <= j && j < len(newModuleDeps) && d == newModuleDeps[j] ==> d != nil && !old(allocated(d)) && cast(*moduleDep, d).isDirect == isDirect && cast(*moduleDep, d).parent == module && cast(*moduleDep, d).Module.OpaqueID() != module.OpaqueID()
-//@   loop 0 invariant forall j int :: 0 <= j && j < $i && second(moduleSet.getModuleForFilePath(ctx, fastscanResult.Imports[j].Path)) == nil && first(moduleSet.getModuleForFilePath(ctx, fastscanResult.Imports[j].Path)).OpaqueID() != opaqueID ==> first(moduleSet.getModuleForFilePath(ctx, fastscanResult.Imports[j].Path)).OpaqueID() in depOpaqueIDToModuleDep
+//@   loop 0 invariant {C10 C08} forall j int :: 0 <= j && j < $i && second(moduleSet.getModuleForFilePath(ctx, fastscanResult.Imports[j].Path)) == nil && first(moduleSet.getModuleForFilePath(ctx, fastscanResult.Imports[j].Path)).OpaqueID() != opaqueID ==> first(moduleSet.getModuleForFilePath(ctx, fastscanResult.Imports[j].Path)).OpaqueID() in depOpaqueIDToModuleDep
+//@   loop 1 invariant forall k string, d ref :: k in depOpaqueIDToModuleDep && d == depOpaqueIDToModuleDep[k] ==> allocated(d)
 //@   loop 1 invariant depOpaqueIDToModuleDep != nil && visitedOpaqueIDToDescription != nil && parentOpaqueIDs != nil
 //@   loop 1 invariant protoFileTracker.opaqueIDToProtoFileExists != nil && protoFileTracker.protoPathToOpaqueIDMap != nil && protoFileTracker.opaqueIDToDescription != nil
 //@   loop 1 invariant forall k string :: k in old(depOpaqueIDToModuleDep) ==> k in depOpaqueIDToModuleDep && depOpaqueIDToModuleDep[k] == old(depOpaqueIDToModuleDep)[k]
 //@   loop 1 invariant forall k string, d ref :: k in depOpaqueIDToModuleDep && !(k in old(depOpaqueIDToModuleDep)) && d == depOpaqueIDToModuleDep[k] ==> d != nil && !old(allocated(d))
+//@   loop 1 invariant forall k string, d ref :: k in depOpaqueIDToModuleDep && !(k in old(depOpaqueIDToModuleDep)) && d == depOpaqueIDToModuleDep[k] ==> (cast(*moduleDep, d).isDirect ==> isDirect)
+//@   loop 1 invariant forall k string :: (k in parentOpaqueIDs) <==> (k in old(parentOpaqueIDs) || k == opaqueID)
 //@   loop 1 invariant forall d ref :: old(allocated(d)) ==> cast(*moduleDep, d).isDirect == old(cast(*moduleDep, d).isDirect) && cast(*moduleDep, d).parent == old(cast(*moduleDep, d).parent) && cast(*moduleDep, d).Module == old(cast(*moduleDep, d).Module)
 //@   loop 1 invariant forall j int, d ref :: 0 <= j && j < len(newModuleDeps) && d == newModuleDeps[j] ==> d != nil && !old(allocated(d))
 
